@@ -419,7 +419,9 @@ func runCheck(o checkOpts) checkOutcome {
 func cmdList(args []string) int {
 	fs := flag.NewFlagSet("list", flag.ExitOnError)
 	repo := fs.String("repo", "/repo", "")
+	claimedF := fs.String("claimed", "", "comma-separated claimed properties: report postconditions no claimed check proves")
 	fs.Parse(args)
+	claimed := *claimedF
 	prog, err := loadProgram(*repo, repoPkgPatterns, nil)
 	if err != nil {
 		fmt.Println(err)
@@ -441,6 +443,44 @@ func cmdList(args []string) int {
 	for _, k := range keys {
 		fc := prog.contracts[k]
 		fmt.Printf("%-80s props=%v requires=%d ensures=%d loops=%d trusted=%v ext=%v\n", k, fc.props, len(fc.requires), len(fc.ensures), len(fc.loops), fc.trusted, fc.ext)
+	}
+	// postconditions that no claimed property's check discharges although call sites assume them: a C19 check keeps
+	// only the postconditions tagged [C19] (kindServes), so an untagged postcondition of a function whose only claimed
+	// property is C19 would be used and never proved.  `govc list -claimed C01,C02,...` reports them (exit 1).
+	if claimed != "" {
+		cl := map[string]bool{}
+		for _, p := range strings.Split(claimed, ",") {
+			cl[strings.TrimSpace(p)] = true
+		}
+		bad := 0
+		for _, k := range keys {
+			fc := prog.contracts[k]
+			if fc.trusted || fc.ext || fc.standalone {
+				continue
+			}
+			for _, c := range fc.ensures {
+				if c.assume {
+					continue
+				}
+				served := false
+				for _, p := range c.props {
+					if !cl[p] {
+						continue
+					}
+					if p == "C19" && !hasProp(c.ownProps, "C19") {
+						continue
+					}
+					served = true
+				}
+				if !served {
+					fmt.Printf("UNSERVED postcondition (assumed at call sites, proved under no claimed property): %s: %s\n", k, c.text)
+					bad++
+				}
+			}
+		}
+		if bad > 0 {
+			return 1
+		}
 	}
 	return 0
 }
